@@ -111,6 +111,10 @@ def patch(ru_overrides=None, os_faulty=()):
     simos   = P.SimOs(faulty=('open', 'write', 'link', 'symlink', 'rename',
                               'makedirs', 'mkdir', 'stat', 'chmod'))
     rup     = N.RuProxy(ru_overrides)
+    simsys  = P.SimSys()
+    sys_modules = ('radical.pilot.raptor.worker',
+                   'radical.pilot.raptor.worker_default',
+                   'radical.pilot.utils.component')
 
     import time, threading, multiprocessing, queue, subprocess
     import radical.utils as ru
@@ -144,6 +148,8 @@ def patch(ru_overrides=None, os_faulty=()):
                 d[k] = rup
             elif v is os and name in os_modules:
                 d[k] = simos
+            elif v is sys and name in sys_modules:
+                d[k] = simsys
 
     _patched = rup
     rup.simos = simos
